@@ -204,7 +204,7 @@ func (c *Conn) waitCloseHandshake() error {
 	if err != nil {
 		return err
 	}
-	defer c.readMu.unlock()
+	defer c.readUnlock()
 
 	for i := int64(0); i < c.msgReader.payloadLength; i++ {
 		_, err := c.br.ReadByte()
